@@ -70,12 +70,112 @@ def dataHashEvent {α δ : Type} [DecidableEq δ] (H : List α → δ) (stored :
   if H (sel excl 0 asset) = stored then C20.succ "assertion.dataHash.match" false
   else C20.fail "assertion.dataHash.mismatch" false
 
+/-! ### the asset step of `verify_store`
+
+After `verify_claim` of the active manifest and `ingredient_checks` both returned `Ok`,
+`verify_store` runs `verify_hash_binding` once, on the claim `svi.binding_claim` names
+(`get_hash_binding_manifest`), and only when the store holds a claim of that label. The
+exclusion re-basing is done only when the *active* claim is an update manifest
+(`svi.update_manifest_label`). -/
+
+/-- which routine of `verify_hash_binding` handles a hard binding (`label_raw().starts_with(..)`
+in the order tested) -/
+inductive HK | data | bmff | boxes | other
+  deriving DecidableEq, Repr
+
+def cHashData : Str := "c2pa.hash.data".toList
+def cHashBmff : Str := "c2pa.hash.bmff".toList
+def cHashBoxes : Str := "c2pa.hash.boxes".toList
+
+def hashKind (l : Str) : HK :=
+  if cHashData.isPrefixOf l then .data
+  else if cHashBmff.isPrefixOf l then .bmff
+  else if cHashBoxes.isPrefixOf l then .boxes
+  else .other
+
+/-- `hash_assertions()` in its iteration order: data hashes, then BMFF hashes, then box hashes -/
+def hashCAs (c : C20.Claim) : List C20.CA :=
+  let hs := c.store.filter C20.CA.isHash
+  hs.filter (fun a => hashKind a.label == .data) ++ hs.filter (fun a => hashKind a.label == .bmff) ++
+    hs.filter (fun a => hashKind a.label == .boxes)
+
+/-- the status one hard binding logs: `ok` = the hash over the asset matched -/
+def hashEvent (k : HK) (ok : Bool) : List C20.Ev :=
+  match k, ok with
+  | .data, true => [C20.succ "assertion.dataHash.match" false]
+  | .data, false => [C20.fail "assertion.dataHash.mismatch" false]
+  | .bmff, true => [C20.succ "assertion.bmffHash.match" false]
+  | .bmff, false => [C20.fail "assertion.bmffHash.mismatch" false]
+  | .boxes, true => [C20.succ "assertion.boxesHash.match" false]
+  | .boxes, false => [C20.fail "assertion.boxesHash.mismatch" false]
+  | .other, _ => []
+
+def hashEvents : List C20.CA → List Bool → List C20.Ev
+  | [], _ => []
+  | a :: as, oks => hashEvent (hashKind a.label) (oks.headD true) ++ hashEvents as oks.tail
+
+/-- `verify_hash_binding` on the binding claim; `oks` = per hard binding (iteration order)
+whether the hash over the asset matched -/
+def bindingEvents (c : C20.Claim) (oks : List Bool) : List C20.Ev :=
+  bindingRules c (hashCAs c).length ++ hashEvents (hashCAs c) oks
+
+/-- active manifest and the claim whose hard binding `verify_store` checks -/
+def bindingClaim (s : C20.Store) : P (Option (C20.Claim × C20.Claim)) :=
+  match s.getLast? with
+  | none => some none
+  | some root =>
+    match hbm s (fuelFor s) root [] with
+    | none => none
+    | some none => some none
+    | some (some bl) =>
+      match getClaim s bl with
+      | none => some none
+      | some bc => some (some (root, bc))
+
+/-- `verify_store` with asset data; second component: label of the claim whose hard binding was
+checked against the asset (`none`: the asset step was not reached) -/
+def verifyStoreAB (s : C20.Store) (oks : List Bool) : P (C20.Out × Option Str) :=
+  match verifyStore s with
+  | none => none
+  | some o =>
+    if o.err then some (o, none)
+    else
+      match bindingClaim s with
+      | none => none
+      | some none => some (o, none)
+      | some (some (_, bc)) => some (⟨o.log ++ bindingEvents bc oks, false⟩, some bc.label)
+
+/-- a data hash as the validator reads it: stored digest and exclusions -/
+structure HB (δ : Type) where
+  stored : δ
+  excl : List Rng
+
+/-- the exclusions actually used: re-based only under an active update manifest -/
+def effExcl (activeIsUpdate : Bool) (range : Option Rng) (excl : List Rng) : List Rng :=
+  if activeIsUpdate then rebase excl range else excl
+
+def hashOk {α δ : Type} [DecidableEq δ] (H : List α → δ) (activeIsUpdate : Bool) (range : Option Rng)
+    (asset : List α) (hb : HB δ) : Bool :=
+  decide (H (sel (effExcl activeIsUpdate range hb.excl) 0 asset) = hb.stored)
+
+/-- `verify_store` against an asset whose binding claim carries data hashes `hbOf bc` -/
+def verifyStoreA {α δ : Type} [DecidableEq δ] (H : List α → δ) (hbOf : C20.Claim → List (HB δ))
+    (s : C20.Store) (asset : List α) (range : Option Rng) : P (C20.Out × Option Str) :=
+  match bindingClaim s with
+  | none => none
+  | some none => verifyStoreAB s []
+  | some (some (root, bc)) => verifyStoreAB s ((hbOf bc).map (hashOk H root.update range asset))
+
 /-! ### line protocol
   verify claims=…                       (the C20 store validator; same grammar)
-  rebase excl=<s:l,…|-> range=<s:l|-> cand=<s:l,…|-> n=<len>
-       -> same|diff     (same = the re-based list selects the same offsets of an n-byte asset
-                         as `cand`; the implementation side hashes the bytes `cand` selects
-                         and reports whether the real re-based data hash matches)
+  verifya claims=… oks=<0|1,…|->        -> ok|err <code>@<A|I>,… B=<label of the binding claim or ->
+       (verify_store with the asset: `oks` says, per hard binding of the binding claim in
+        iteration order, whether the asset is unchanged (by construction of the case))
+  rebase excl=<s:l,…|-> range=<s:l|-> cand=<s:l,…|-> n=<len> upd=<0|1>
+       -> same|diff     (same = the effective exclusion list selects the same offsets of an
+                         n-byte asset as `cand`; the implementation side hashes the bytes `cand`
+                         selects and reports whether the real data hash matches; `upd` = the
+                         active claim is an update manifest)
 -/
 
 def rngIn (s : String) : Option Rng :=
@@ -91,15 +191,23 @@ def rngsOut (l : List Rng) : String :=
 
 def selIdx (excl : List Rng) (n : Nat) : List Nat := sel excl 0 (List.range n)
 
+def boolsIn (s : String) : List Bool :=
+  if s == "-" || s.isEmpty then [] else (s.splitOn ",").map (· == "1")
+
 def handle (toks : List String) : String :=
   match toks with
   | "verify" :: _ => C20.handle toks
+  | "filter" :: _ => C20.handle toks
+  | "verifya" :: rest =>
+    match verifyStoreAB (C20.claimsIn (field rest "claims")) (boolsIn (field rest "oks")) with
+    | none => "panic"
+    | some (o, b) => C20.outStr (some o) ++ " B=" ++ (match b with | some l => C20.sOut l | none => "-")
   | "rebase" :: rest =>
     let excl := rngsIn (field rest "excl")
     let range := rngIn (field rest "range")
     let cand := rngsIn (field rest "cand")
     let n := (field rest "n").toNat!
-    let r := rebase excl range
+    let r := effExcl (field rest "upd" != "0") range excl
     if selIdx r n == selIdx cand n then "same" else "diff"
   | _ => "bad-op"
 
